@@ -516,6 +516,28 @@ def r207(ctx, R):
          'the stored limit (%s) is read by limit_results only: the search '
          'and the merge produce the full set' % attr, sorted(set(readers)),
          func=init)
+    # ... and the request's limit reaches the search through that attribute
+    # only: RequestWideParams.limit is read by the search context's
+    # constructor and nowhere else (a copy handed to a request group or to a
+    # query would cut before the request-wide filters have run)
+    fld_readers = []
+    for f in prog.funcs:
+        if not f.module.name.startswith('placement.') or \
+                f.module.name.startswith('placement.tests'):
+            continue
+        for x in own_nodes(f.node):
+            if isinstance(x, ast.Attribute) and x.attr == 'limit' and \
+                    isinstance(x.ctx, ast.Load) and not (
+                        isinstance(x.value, ast.Name) and x.value.id in (
+                            'sa', 'query', 'sel', 'subq')):
+                par = getattr(x, '_parent', None)
+                if isinstance(par, ast.Call) and par.func is x:
+                    continue        # <query>.limit(n): the SQL method
+                fld_readers.append(f.qbase)
+    okf = set(fld_readers) == {init.qbase}
+    R.ob('R20.7', 'request-limit-read-only-by-search-context', okf,
+         'RequestWideParams.limit is read only where the search context '
+         'stores it', sorted(set(fld_readers)), func=init)
     R.count('R20.7', 1, 1)
 
 
